@@ -93,6 +93,23 @@ func (w *World) value(r *Rng, b int) uint32 {
 func (w *World) rangeArgs(r *Rng) (uint64, uint64) {
 	k := uint64(w.key(r))
 	start := k<<16 | uint64(low(r))
+	if r.Chance(1, 5) {
+		// both ends on boundary values (the end is exclusive: 65535 leaves the last value out)
+		if r.Bool() {
+			start = k << 16
+		}
+		k2 := k + uint64(r.Intn(3))
+		if k2 > 0xFFFF {
+			k2 = 0xFFFF
+		}
+		end := k2<<16 | uint64(low(r))
+		if r.Chance(1, 3) {
+			end = k2<<16 | uint64([]uint32{65535, 65534, 1, 0, 64, 65472}[r.Intn(6)])
+		}
+		if end > start {
+			return start, end
+		}
+	}
 	var length uint64
 	switch r.Intn(10) {
 	case 0:
